@@ -266,7 +266,8 @@ impl<F: Field> SparsePolynomial<F> {
                         .or_insert_with(|| *self_coeff * other_coeff);
                 }
             }
-            Self::from_coefficients_vec(result.into_iter().collect())
+            // Products of different terms may cancel: drop the resulting zero coefficients.
+            Self::from_coefficients_vec(result.into_iter().filter(|(_, c)| !c.is_zero()).collect())
         }
     }
 
